@@ -51,6 +51,30 @@ fn main() {
             }
         };
         let case = body.get("case").cloned().unwrap_or(body.clone());
+        if let (Some(slice), Some(tier)) = (case.get("crash_shard_mod").and_then(|x| x.as_str()), case.get("tier").and_then(|x| x.as_str())) {
+            let st = child_cmd(&[id.clone(), tier.to_string()])
+                .env("VERIF_SHARD_MOD", slice)
+                .env("VERIF_EVIDENCE_PATH", format!("{}/harness/target/crash-probe-{}.json", verif_dir, id))
+                .stdout(std::process::Stdio::null())
+                .stderr(std::process::Stdio::null())
+                .status();
+            match st {
+                Ok(st) if fatal_signal(&st).is_some() => {
+                    println!("complaint: the code under test kills the process (signal {}) while exploring the shards {}", fatal_signal(&st).unwrap(), slice);
+                    println!("case: {}", case);
+                    println!("VIOLATION property={} replay={}", id, path);
+                    std::process::exit(1);
+                }
+                Ok(st) => {
+                    println!("replay property={} case={} : the slice ran to its end ({:?})", id, case, st.code());
+                    std::process::exit(if st.code() == Some(1) { 1 } else { 0 });
+                }
+                Err(e) => {
+                    eprintln!("cannot start the replay child: {}", e);
+                    std::process::exit(2);
+                }
+            }
+        }
         // two executions, each on a thread of its own (so that neither sees thread-local state
         // the other - or this thread - left behind in the code under test)
         let replay_fn = entry.replay;
@@ -119,6 +143,13 @@ fn main() {
                 Tier::Thorough => 7200.0,
             }),
     };
+    // Supervisor: the exploration itself runs in a CHILD process.  Panics of the code under test
+    // are caught in-process, but an abort (absurd allocation), a stack overflow or a segfault
+    // kills the process; the parent then looks for the slice of the exploration that does it and
+    // reports that as the violation it is, instead of dying without a verdict.
+    if std::env::var("VERIF_CHILD").is_err() {
+        std::process::exit(supervise(&cfg, &args));
+    }
     // a panic outside `subject` is a harness failure, never a verdict
     let res = std::panic::catch_unwind(std::panic::AssertUnwindSafe(|| (entry.run)(&cfg)));
     match res {
@@ -131,4 +162,77 @@ fn main() {
             std::process::exit(2);
         }
     }
+}
+
+/// signals that mean "the code under test killed the process" (SIGILL, SIGABRT, SIGBUS, SIGSEGV);
+/// anything else (SIGKILL from the OOM killer, SIGTERM ...) is the environment's doing
+fn fatal_signal(st: &std::process::ExitStatus) -> Option<i32> {
+    use std::os::unix::process::ExitStatusExt;
+    match st.signal() {
+        Some(s) if [4, 6, 7, 11].contains(&s) => Some(s),
+        _ => None,
+    }
+}
+
+fn child_cmd(args: &[String]) -> std::process::Command {
+    let exe = std::env::current_exe().expect("current_exe");
+    let mut c = std::process::Command::new(exe);
+    c.args(args).env("VERIF_CHILD", "1");
+    c
+}
+
+const SLICES: usize = 16;
+
+fn supervise(cfg: &engine::RunCfg, args: &[String]) -> i32 {
+    let st = match child_cmd(args).status() {
+        Ok(s) => s,
+        Err(e) => {
+            eprintln!("harness error: cannot start the exploration child: {}", e);
+            return 2;
+        }
+    };
+    if let Some(c) = st.code() {
+        return c;
+    }
+    let sig = match fatal_signal(&st) {
+        Some(s) => s,
+        None => {
+            eprintln!("harness error: the exploration child was terminated from outside ({:?})", st);
+            return 2;
+        }
+    };
+    eprintln!("the exploration child was killed by signal {}; looking for the slice of the exploration that does it", sig);
+    let scratch = format!("{}/harness/target/crash-probe-{}.json", cfg.verif_dir, cfg.prop);
+    for k in 0..SLICES {
+        let st = child_cmd(args)
+            .env("VERIF_SHARD_MOD", format!("{}/{}", k, SLICES))
+            .env("VERIF_EVIDENCE_PATH", &scratch)
+            .stdout(std::process::Stdio::null())
+            .stderr(std::process::Stdio::null())
+            .status();
+        if let Ok(st) = st {
+            if let Some(s2) = fatal_signal(&st) {
+                let _ = std::fs::remove_file(&scratch);
+                let mut rep = engine::CheckReport::new(
+                    "exploration",
+                    "supervisor: the exploration was run in a child process, which was killed by a signal; the exploration was then re-run in 16 slices (shard index modulo 16), each in a child of its own, to find one that reproduces the death",
+                );
+                let mut acc = engine::Acc::default();
+                acc.violation(|| {
+                    (
+                        serde_json::json!({"crash_shard_mod": format!("{}/{}", k, SLICES), "signal": s2, "tier": cfg.tier.name()}),
+                        format!(
+                            "the code under test KILLED the process (signal {}: abort / stack overflow / invalid memory access) while exploring the shards with index {} modulo {}; no diff result was delivered",
+                            s2, k, SLICES
+                        ),
+                    )
+                });
+                rep.part("crash", serde_json::json!({}), engine::Explored { acc, shards_total: 1, shards_done: 0, capped: false, wall_s: 0.0 });
+                return engine::conclude(cfg, rep);
+            }
+        }
+    }
+    let _ = std::fs::remove_file(&scratch);
+    eprintln!("harness error: the death of the exploration child (signal {}) did not reproduce in any slice", sig);
+    2
 }
